@@ -11,14 +11,14 @@ LMAX = {"quick": 3, "thorough": 5}
 SHARDS = {"quick": 8, "thorough": 14}
 NDOC = {"quick": 300, "thorough": 15000}
 EXHAUSTIVE = {"quick": True, "thorough": True}
-RULE = ("two focus alphabets (short-form disambiguation: 10 kinds; id./placeholder/roman pages: 12 kinds) enumerated to length 4 (quick) / 5 (thorough); EXHAUSTIVE over all sequences of length <= L (L=3 quick, 5 thorough) over the 21-kind alphabet of "
+RULE = ("two focus alphabets (short-form disambiguation: 10 kinds; id./placeholder/roman/nominative pages: 14 kinds) enumerated to length 4 (quick) / 5 (thorough); EXHAUSTIVE over all sequences of length <= L (L=3 quick, 5 thorough) over the 21-kind alphabet of "
         "C06, every prefix of each re-resolved with the real resolve_citations and compared with the "
         "restriction of the full resolution (resources by == and hash, members by identity and order); plus "
-        "random sequences of length 4..9 over 43 kinds and all prefixes of lists extracted from generated "
+        "random sequences of length 4..9 over 45 kinds and all prefixes of lists extracted from generated "
         "documents; also: no non-full citation grouped under a resource whose first full member occurs later; "
         "non-trivial = (list, cut) pair with a non-empty prefix; distinct = distinct kind sequence / document")
 ASSUMPTIONS = ["exhaustive for the stated alphabet and bound only"]
-FLOORS = {"quick": {"sequences": R.n_sequences(3), "focus_sequences": R.n_focus_sequences(3), "prefix_pairs": 20000, "extracted_lists": 400},
+FLOORS = {"quick": {"sequences": R.n_sequences(3), "focus_sequences": R.n_focus_sequences(3), "prefix_pairs": 20000, "extracted_lists": 400, "long_lists": 10},
           "thorough": {"sequences": R.n_sequences(5), "focus_sequences": R.n_focus_sequences(5), "prefix_pairs": 15000000, "extracted_lists": 20000}}
 
 
@@ -72,6 +72,26 @@ def run_shard(spec, rec):
         rec.nontrivial(combo)
         if len(rec.samples) < 2:
             rec.sample(dict(sequence=combo))
+    for combo in R.long_lists(protos, rng, 2):
+        seq = R.instantiate(protos, combo)
+        try:
+            res = resolve_citations(seq)
+        except Exception as e:
+            rec.count("resolve_raised:" + type(e).__name__)
+            continue
+        rec.ev()
+        rec.count("long_lists")
+        # prefixes at selected cuts only (the full sweep is quadratic)
+        pos = {id(c): i for i, c in enumerate(seq)}
+        for k in sorted(set([1, 2, 3, 5, 8, 13, 21, 50, 100, 299, 300, 301, len(seq) - 1] + [rng.randrange(len(seq)) for _ in range(6)])):
+            if k >= len(seq):
+                continue
+            got, want = R.canon(resolve_citations(seq[:k]), pos), R.canon(res, pos, upto=k)
+            rec.count("prefix_pairs")
+            if len(got) != len(want) or any(g[1] != w[1] or not (g[2] == w[2]) for g, w in zip(got, want)):
+                rec.violation("C08.prefix_differs", dict(sequence=list(combo)),
+                              observed=dict(cut=k, prefix=[g[1] for g in got][:8], restriction=[w[1] for w in want][:8]))
+                break
     for k in range(spec["ndoc"]):
         text = R.resolution_doc(rng) if k % 4 else gen.dense_doc(rng, hostile=0.2)
         try:
